@@ -1,14 +1,30 @@
 (* Main.v — single entry point of the extracted model: one request tree in, one
    response tree out.  The OCaml driver only parses and prints trees. *)
 From Coq Require Import String List.
-From Prov Require Import Str Sexp Tables Nsm Scope Values Record World Jtree Json JsonSpec Provn ProvnSpec IO Dot Interp.
+From Prov Require Import Str Sexp Tables Nsm Scope Values Record World Jtree Json JsonSpec Provn ProvnSpec IO Dot Xml Interp.
 Import ListNotations.
 Open Scope string_scope.
+
+Definition valarg_value (a : valarg) : option value :=
+  match a with
+  | AStr s => Some (VStr s) | AInt z => Some (VInt z) | AFloat r iv g => Some (VFloat r iv g)
+  | ABool b => Some (VBool b) | ATime t => Some (VTime t) | AId u => Some (VId u) | AQn q => Some (VQn q)
+  | ALit l d g => Some (VLit l d g) | _ => None
+  end.
 
 Definition run (req : sexp) : sexp :=
   match req with
   | L (A "nsprog" :: ops) => L (run_nsprog scope_init ops)
   | L (A "prog" :: L ft :: ops) => run_prog ft ops
+  | L [A "xmlvalue"; A ft; a; v] =>
+      match px_qn a, px_valarg v with
+      | Some aq, Some va =>
+          match valarg_value va with
+          | Some vv => sx_xout (xml_emit (String.eqb ft "true") aq vv)
+          | None => A "bad-value"
+          end
+      | _, _ => A "bad-request"
+      end
   | L [A "dotquote"; A s] => L [A (dot_quote s); A (html_escape s)]
   | L [A "destpath"; A name] =>
       match dest_path name with Some p => L [A "some"; A p] | None => L [A "none"] end
